@@ -15,9 +15,8 @@ PROP = {
         'decode_eof is not modelled',
     ],
     'gaps': [
-        'C15_strict (last sentence of the property: only CRLF terminators are taken) is proved under '
-        'strictTerm = true, i.e. for the tree with .build/patches/f7.diff; on the pinned tree its negation '
-        'C15_strict_violated is proved (finding F7) and C15_strict_partial states what is taken instead',
+        'C15_strict (last sentence of the property) is the live statement since fix 08d356f (strictTerm = true is '
+        'extracted from the source); C15_strict_violated is kept but its hypothesis strictTerm = false no longer holds',
         'length fields: any btoi::<i64> spelling is taken (+3, 03, any negative = nil) in both variants: '
         'recorded as normalisations (DESIGN §7), part of the grammar Accepts',
         'C15_static_multi_partial: the stateless <OptionalMulti<T> as DecodedPacket>::decode loses complete '
